@@ -398,7 +398,8 @@ def weighted (F : Fn α) (inputs : List (X α)) (kind type : String) (agg : Opti
   let init : X α := if acts.isEmpty then .nan else .fin 0
   let (ws, w) ← gs.foldlM (fun (acc : X α × X α) (g : TermD α × X α) => do
     let z ← if ty == "Tsukamoto" then tsukamoto F g.1 g.2 else membership F inputs g.1 g.2
-    pure (X.add acc.1 (X.mul g.2 z), X.add acc.2 g.2)) (init, .fin 0)
+    -- `np.where(w == 0.0, 0.0, w * z)`: a zero weight contributes zero (also where z is unbounded)
+    pure (X.add acc.1 (if X.eq g.2 (.fin 0) then .fin 0 else X.mul g.2 z), X.add acc.2 g.2)) (init, .fin 0)
   let y := X.div ws w
   match kind with
   | "WeightedAverage" => pure y
